@@ -92,6 +92,7 @@ TrStep ==
                                  [] e.e = "Lob" -> LobHits(e)
                                  [] e.e = "Dav" -> DavHits(e)
                                  [] e.e = "MtJob" -> MtHits(e)
+                                 [] e.e = "Abort" -> {Hit("Abort")}
                                  [] e.e \in {"Reset", "EndAux", "JDIter", "EndMt"} -> {}
                                  [] OTHER -> {Hit("UnknownRow")})
         /\ cov' = LET c0 == Bump(cov, "rows", 1) IN
